@@ -1659,4 +1659,42 @@ theorem resume_early (P : Problem S U α ρ) (st : St S U α ρ) (l : Nat) (m : 
   · simp [resume, hf, hl]
   · simp [resume, hf, hl, run, hsz]
 
+/-! ## `init` is `addStart` on the single-leaf BSP -/
+
+theorem stab_leaf (cells : Array (Cell α)) (proj : Array α) (cl : Cell α) (h0 : cells[0]? = some cl)
+    (hk : cl.kids = none) : stab cells proj cells.size 0 = 0 := by
+  have hsz : 0 < cells.size := (Array.getElem?_eq_some_iff.mp h0).1
+  obtain ⟨k, hk'⟩ : ∃ k, cells.size = k + 1 := ⟨cells.size - 1, by omega⟩
+  rw [hk']
+  simp only [stab, h0, hk]
+
+theorem init_eq_addStart (P : Problem S U α ρ) (g : ρ) (starts : List S) :
+    init P g starts = (starts.filter P.valid).foldl (addStart P)
+      { motions := #[], cells := #[{ volume := Num.ofNat 1, splitDim := 0, splitValue := Num.ofNat 0, kids := none, lo := P.lo, hi := P.hi, motions := [] }], heap := {}, rng := g, iteration := 1, nextCtl := 0, lastGoal := none, closest := P.inf, isApprox := true } := by
+  unfold init
+  have key : ∀ (l : List S) (st : St S U α ρ), (∃ cl, st.cells[0]? = some cl ∧ cl.kids = none) →
+      l.foldl (fun st s =>
+        let i := st.motions.size
+        let m : PMotion S U α :=
+          { start := s, stop := s, control := none, ctl := none, dur := 0, priority := Num.ofNat 0, parent := none, cell := 0, helem := some st.heap.next, isSplit := false }
+        let st1 := { st with motions := st.motions.push m, cells := st.cells.modify 0 fun cl => { cl with motions := cl.motions ++ [i] } }
+        { st1 with heap := st1.heap.insert klt (score st1 m, i) }) st = l.foldl (addStart P) st := by
+    intro l
+    induction l with
+    | nil => intro st _; rfl
+    | cons s l ih =>
+      intro st hinv
+      obtain ⟨cl, h0, hk⟩ := hinv
+      rw [List.foldl_cons, List.foldl_cons]
+      have hstep : addStart P st s =
+          { st with motions := st.motions.push { start := s, stop := s, control := none, ctl := none, dur := 0, priority := Num.ofNat 0, parent := none, cell := 0, helem := some st.heap.next, isSplit := false }, cells := st.cells.modify 0 fun cl => { cl with motions := cl.motions ++ [st.motions.size] }, heap := ({ st with motions := st.motions.push { start := s, stop := s, control := none, ctl := none, dur := 0, priority := Num.ofNat 0, parent := none, cell := 0, helem := some st.heap.next, isSplit := false }, cells := st.cells.modify 0 fun cl => { cl with motions := cl.motions ++ [st.motions.size] } } : St S U α ρ).heap.insert klt (score { st with motions := st.motions.push { start := s, stop := s, control := none, ctl := none, dur := 0, priority := Num.ofNat 0, parent := none, cell := 0, helem := some st.heap.next, isSplit := false }, cells := st.cells.modify 0 fun cl => { cl with motions := cl.motions ++ [st.motions.size] } } { start := s, stop := s, control := none, ctl := none, dur := 0, priority := Num.ofNat 0, parent := none, cell := 0, helem := some st.heap.next, isSplit := false }, st.motions.size) } := by
+        unfold addStart
+        simp only [stab_leaf st.cells (P.project s) cl h0 hk]
+      rw [hstep]
+      apply ih
+      refine ⟨{ cl with motions := cl.motions ++ [st.motions.size] }, ?_, hk⟩
+      show (st.cells.modify 0 _)[0]? = _
+      rw [Array.getElem?_modify, if_pos rfl, h0]; rfl
+  exact key _ _ ⟨_, rfl, rfl⟩
+
 end OmplModel.CPDST
